@@ -594,6 +594,21 @@ class CCFG:
         if s is None:
             return fr
         k = s.k
+        # x = c ? a : b;  /  T x = c ? a : b;  /  return c ? a : b;  are the
+        # if/else statements (the test, then exactly one arm)
+        low = None
+        if k == 'expr' and s.a[0] is not None and s.a[0].k == 'assign' and \
+                s.a[0].a[2] is not None and s.a[0].a[2].k == 'cond' and s.a[0].a[0] == '=':
+            asg, c = s.a[0], s.a[0].a[2]
+            low = (c.a[0],
+                   E('expr', E('assign', asg.a[0], asg.a[1], c.a[1], line=s.line), line=s.line),
+                   E('expr', E('assign', asg.a[0], asg.a[1], c.a[2], line=s.line), line=s.line))
+        elif k == 'return' and s.a[0] is not None and s.a[0].k == 'cond':
+            c = s.a[0]
+            low = (c.a[0], E('return', c.a[1], line=s.line), E('return', c.a[2], line=s.line))
+        if low is not None:
+            t, f = self._cond(low[0], fr)
+            return self._stmt(low[1], t) + self._stmt(low[2], f)
         if k == 'block':
             for x in s.a[0]:
                 fr = self._stmt(x, fr)
